@@ -156,3 +156,77 @@ Theorem C06_sonic_verifier_combined_commitment :
     slc_verifier_loop cm lab num terms ev b cc = Ok (ev', b', cc') -> cc' = cc + s_comm_value cm terms.
 Proof. exact @s_verifier_loop_comm. Qed.
 Print Assumptions C06_sonic_verifier_combined_commitment.
+
+(* IPA's own open_combinations / check_combinations (free-module view): the prover's combination of honest commitments to
+   polynomials without degree bounds is the honest commitment (key-defined linear map plus blinding term) of exactly the stated
+   combination with the combined randomness - one flat element, no shifted part; every commitment made by commit is honest in
+   this sense; the verifier's combined commitment is the coefficient-weighted sum of the commitments it looked up; bounded mixes
+   are refused by both sides; constants move into the claims of their own combination *)
+From PC Require Import Schemes.IPA Proofs.IPAFacts Schemes.IPABatch Proofs.IPALCFacts.
+Theorem C06_ipa_combination_is_honest_commitment :
+  forall (FO : FieldOps) (FL : FieldLaws FO) d lm lab terms a,
+    i_lm_honest d lm ->
+    (forall co0 l lp st c, In (co0, TPoly l) terms -> lookup N.compare l lm = Some (lp, st, c) -> lp_bound lp = None) ->
+    ilc_prover_loop lm (length terms) terms
+      {| ia_poly := []; ia_bound := None; ia_hiding := None; ia_rand := f0; ia_srand := None; ia_cc := []; ia_cs := None |} = Ok a ->
+    i_honest d ({| lp_label := lab; lp_poly := ia_poly a; lp_bound := ia_bound a; lp_hiding := ia_hiding a |},
+                {| ir_rand := ia_rand a; ir_shifted := ia_srand a |},
+                ({| ic_comm := ia_cc a; ic_shifted := ia_cs a |}, ia_bound a)) /\
+    ia_bound a = None /\ flat_of (ia_cc a) (ia_cs a) = [ia_cc a] /\
+    forall x, eval (ia_poly a) x + lc_const terms = lc_value (i_poly_of lm x) terms.
+Proof. exact @ilc_prover_one_unbounded. Qed.
+Print Assumptions C06_ipa_combination_is_honest_commitment.
+
+Theorem C06_ipa_commit_is_honest :
+  forall (FO : FieldOps) (FL : FieldLaws FO) d lp rng cm st n b,
+    i_commit1 d lp rng = Ok (cm, st, n) -> i_honest d (lp, st, (cm, b)).
+Proof. exact @commit1_i_honest. Qed.
+Print Assumptions C06_ipa_commit_is_honest.
+
+Theorem C06_ipa_verifier_combined_commitment :
+  forall (FO : FieldOps) (FL : FieldLaws FO) cm lab num terms ev b cc cs ev' b' cc' cs',
+    ilc_verifier_loop cm lab num terms ev b cc cs = Ok (ev', b', cc', cs') ->
+    forall i, co i cc' = co i cc + i_comm_value i cm terms.
+Proof. exact @ilc_verifier_loop_comm. Qed.
+Print Assumptions C06_ipa_verifier_combined_commitment.
+
+Theorem C06_ipa_prover_refuses_bounded_mix :
+  forall (FO : FieldOps) lm num coeff l t a lp st c b,
+    lookup N.compare l lm = Some (lp, st, c) -> lp_bound lp = Some b -> num <> 1%nat ->
+    ilc_prover_loop lm num ((coeff, TPoly l) :: t) a = Err EEquationHasDegreeBounds.
+Proof. exact @ilc_prover_refuses_bounded_mix. Qed.
+Print Assumptions C06_ipa_prover_refuses_bounded_mix.
+
+Theorem C06_ipa_verifier_refuses_bounded_mix :
+  forall (FO : FieldOps) cm lab num coeff l t ev b cc cs c sc bd,
+    lookup N.compare l cm = Some (c, Some bd) -> ic_shifted c = Some sc -> num <> 1%nat ->
+    ilc_verifier_loop cm lab num ((coeff, TPoly l) :: t) ev b cc cs = Err EEquationHasDegreeBounds.
+Proof. exact @ilc_verifier_refuses_bounded_mix. Qed.
+Print Assumptions C06_ipa_verifier_refuses_bounded_mix.
+
+(* PST13's open_combinations / check_combinations (free-module view over (g, gamma_g)): the prover's combination of commitments
+   that are the evaluations of (polynomial, blinding polynomial) at the trapdoor is the commitment of the combined polynomial
+   with the combined blinding polynomial, and it evaluates to the stated combination; the verifier forms the same weighted sum;
+   constants move into the claims of their own combination *)
+From PC Require Import Schemes.PST13 Schemes.PST13H Proofs.PST13HFacts Schemes.PST13Batch Proofs.PST13LCFacts.
+Theorem C06_pst13_combination_is_honest_commitment :
+  forall (FO : FieldOps) (FL : FieldLaws FO) betas lm terms p r c,
+    p_lm_honest betas lm ->
+    plc_prover_loop lm terms [] [] [] = Ok (p, r, c) ->
+    (forall i, co i c = co i (comm_of betas (p, Some r))) /\
+    forall x, eval_mpoly x p + lc_const terms = lc_value (p_poly_of lm x) terms.
+Proof. exact @plc_combination_is_honest_commitment. Qed.
+Print Assumptions C06_pst13_combination_is_honest_commitment.
+
+Theorem C06_pst13_verifier_combined_commitment :
+  forall (FO : FieldOps) (FL : FieldLaws FO) cm lab terms ev c ev' c',
+    plc_verifier_loop cm lab terms ev c = Ok (ev', c') -> forall i, co i c' = co i c + p_comm_value i cm terms.
+Proof. exact @plc_verifier_loop_comm. Qed.
+Print Assumptions C06_pst13_verifier_combined_commitment.
+
+Theorem C06_pst13_constant_term_moves_to_claim :
+  forall (FO : FieldOps) cm lab coeff t ev c,
+    plc_verifier_loop cm lab ((coeff, TOne) :: t) ev c =
+    plc_verifier_loop cm lab t (map (fun kv => if N.eqb (fst (fst kv)) lab then (fst kv, snd kv - coeff) else kv) ev) c.
+Proof. exact @plc_constant_term_moves_to_claim. Qed.
+Print Assumptions C06_pst13_constant_term_moves_to_claim.
